@@ -425,12 +425,23 @@ class MultipartUploader:
                     filename, '/'.join([bucket, key]), e
                 )
             )
-        self._client.complete_multipart_upload(
-            Bucket=bucket,
-            Key=key,
-            UploadId=upload_id,
-            MultipartUpload={'Parts': parts},
-        )
+        try:
+            self._client.complete_multipart_upload(
+                Bucket=bucket,
+                Key=key,
+                UploadId=upload_id,
+                MultipartUpload={'Parts': parts},
+            )
+        except Exception:
+            logger.debug(
+                "Exception raised while completing the multipart upload, "
+                "aborting multipart upload.",
+                exc_info=True,
+            )
+            self._client.abort_multipart_upload(
+                Bucket=bucket, Key=key, UploadId=upload_id
+            )
+            raise
 
     def _upload_parts(
         self, upload_id, filename, bucket, key, callback, extra_args
